@@ -126,8 +126,10 @@ impl C13 {
                 (self.armed.2, cfg.pg.is_some(), Timer::PeriodicGossip(tok), "gossip"),
             ] {
                 let c = self.count(&t);
-                if armed && now {
-                    ensure!(c == 1, "C13/periodic-timer-count", "{c} outstanding periodic {name} timers for epoch {tok} (outstanding: {:?})", self.out);
+                if now {
+                    // enabled now: whether it was when the epoch began, or set_config accepted enabling it since (which
+                    // the crate documents as unsupported and refuses - if it ever accepts, the loop must exist)
+                    ensure!(c == 1, "C13/periodic-timer-count", "{c} outstanding periodic {name} timers for epoch {tok} although the task is enabled (enabled when the epoch began: {armed}; outstanding: {:?})", self.out);
                 } else if armed {
                     ensure!(c <= 1, "C13/periodic-timer-count", "{c} outstanding periodic {name} timers after the task was switched off");
                 } else {
